@@ -1,3 +1,4 @@
+import Pm.Sort2
 /- spike: Dev.lean extended with the connection layer of device.c / device_tcp.c (one tcp device):
    `_enqueue_targeted_actions`, `_process_action` and every `_process_*`, with the regex engine
    as an oracle.  Written for execution (compared with the real code), not yet for proof. -/
@@ -113,26 +114,26 @@ def str (s : String) : Bytes := s.toUTF8.toList
 def isPrint (b : UInt8) : Bool := 32 ≤ b.toNat && b.toNat ≤ 126
 
 def octal (n : Nat) : Bytes := (Nat.toDigits 8 n).map fun c => c.toNat.toUInt8
-/-- `dbg_memstr` as coded (signed char): visible text only -/
+/-- `dbg_memstr`: visible text only (the byte is converted through `unsigned char`) -/
 def memstr (bs : Bytes) : Bytes :=
   bs.flatMap fun b =>
     if b == 13 then str "\\r" else if b == 10 then str "\\n" else if b == 9 then str "\\t"
     else if isPrint b then [b]
     else
-      let v := if b.toNat ≥ 128 then 2 ^ 32 - 256 + b.toNat else b.toNat
-      let ds := octal v
+      let ds := octal b.toNat
       let ds := List.replicate (3 - ds.length) (48 : UInt8) ++ ds
-      (92 : UInt8) :: ds.take 3          -- later writes overwrite all but the first four characters
+      (92 : UInt8) :: ds
 
-/-- F2: does `dbg_memstr` write past its `4*len+1` bytes?  A byte ≥ 0x80 is promoted to a negative
-    int and printed as 11 octal digits: 13 bytes are written at an offset that only advances by 4. -/
+/-- does `dbg_memstr` write past its `4*len+1` bytes?  Every escape is at most `\\ooo` plus the terminator
+    `sprintf`/`strcpy` append: 5 bytes written at an offset that advances by 4 (2+1 for `\\r`, `\\n`, `\\t`).
+    (Before the repair of F2 a byte ≥ 0x80 was printed as 11 octal digits; `memstrOverflows_false` in
+    `Props/C07` shows the repaired arithmetic never overflows.) -/
 def memstrOverflows (bs : Bytes) : Bool :=
   let cap := 4 * bs.length + 1
   (bs.foldl (fun (acc : Nat × Bool) b =>
       let (j, bad) := acc
       if b == 13 || b == 10 || b == 9 then (j + 2, bad || j + 3 > cap)
-      else if isPrint b then (j + 1, bad)
-      else if b.toNat ≥ 128 then (j + 4, bad || j + 13 > cap)
+      else if isPrint b then (j + 1, bad || j + 1 > cap)
       else (j + 4, bad || j + 5 > cap)) (0, false)).2
 
 def teleMem (cid : Nat) (pre : String) (bs : Bytes) : List Out :=
@@ -175,21 +176,13 @@ def askRx (o : Oracle) (pat : Nat) (subject : Bytes) : Oracle × Option (List (I
 
 def isRanged (com : Nat) : Bool := com == 8 || com == 11 || com == 14 || com == 17 || com == 24 || com == 26
 
-/-- compress sorted plug names for a ranged send: only what the spike's generator needs
-    (names are decimal numbers): "[a-b,c]" -/
-def rangedNames (names : List Bytes) : Bytes :=
-  let nums := (names.map fun n => (String.fromUTF8! ⟨n.toArray⟩).toNat!).mergeSort (· ≤ ·)
-  let rec groups (l : List Nat) (cur : Option (Nat × Nat)) (acc : List (Nat × Nat)) : List (Nat × Nat) :=
-    match l, cur with
-    | [], none => acc.reverse
-    | [], some g => (g :: acc).reverse
-    | x :: r, none => groups r (some (x, x)) acc
-    | x :: r, some (a, b) => if x == b + 1 then groups r (some (a, x)) acc else groups r (some (x, x)) ((a, b) :: acc)
-  let gs := groups nums none []
-  let body := ",".intercalate (gs.map fun (a, b) => if a == b then toString a else s!"{a}-{b}")
-  match gs with
-  | [(a, b)] => if a == b then str (toString a) else str ("[" ++ body ++ "]")
-  | _ => str ("[" ++ body ++ "]")
+/-- the `%s` argument of a ranged send: `hostlist_create(NULL)`, `hostlist_push` of every plug name,
+    `hostlist_sort`, `hostlist_ranged_string` — through the hostlist mirror; `none` = the sort assert (F19) -/
+def rangedNames (names : List Bytes) : Option Bytes :=
+  let toChars (b : Bytes) : List Char := b.map fun x => Char.ofNat x.toNat
+  match Pm.sortHL ((names.map toChars).foldl Pm.pushHost []) with
+  | .ok hl => some ((Pm.rangedString hl).map fun c => c.toNat.toUInt8)
+  | .abort => none
 
 
 def pickState (askf : Oracle → Nat → Bytes → Oracle × Option (List (Int × Int)) × List Out) (s : Bytes) :
@@ -241,10 +234,13 @@ def stmtExpect (d : Dev) (a : Action) (o : Oracle) (pat : Nat) : StepR :=
 /-- `_process_send` -/
 def stmtSend (d : Dev) (a : Action) (o : Oracle) (e : ExecCtx) (fmt : Bytes) : StepR :=
   if !e.processing then
-    let s := match e.plugs with
-      | some (p :: q :: r) => hsprintf fmt (some (rangedNames ((p :: q :: r).map (·.name))))
-      | some [p] => hsprintf fmt (some p.name)
-      | _ => hsprintf fmt none
+    let so : Option Bytes := match e.plugs with
+      | some (p :: q :: r) => (rangedNames ((p :: q :: r).map (·.name))).map fun n => hsprintf fmt (some n)
+      | some [p] => some (hsprintf fmt (some p.name))
+      | _ => some (hsprintf fmt none)
+    match so with
+    | none => ⟨d, a, o, [.abortAssert "hostlist_sort assert in _process_send"], true⟩
+    | some s =>
     let d := { d with toBuf := d.toBuf ++ s }
     let tele := if a.telemetry then teleMem a.clientId "send(dev): '" s else []
     let a := setTop a { e with processing := true }
@@ -376,11 +372,11 @@ structure CS where
 
 def upd (t : Option Time) (left : Time) : Option Time := match t with | some x => some (min x left) | none => some left
 
-/-- `_rewind_action` exactly as coded: inner contexts dropped, outer block back to its first
-    statement — `processing`, the plug iterator and the plug copy of the outer context survive (F5) -/
+/-- `_rewind_action`: inner contexts dropped, outer block back to its first statement, `processing` cleared
+    and the plug iterator dropped (the plug copy of a ranged action is kept: it is a copy of `plugs`) -/
 def rewind (a : Action) : Action :=
   match a.exec.getLast? with
-  | some outer => { a with exec := [{ outer with pos := 0 }] }
+  | some outer => { a with exec := [{ outer with pos := 0, processing := false, plugItr := none }] }
   | none => a
 
 def loginAction (d : Dev) : Action :=
@@ -406,16 +402,18 @@ def connectOne (c : CS) : CS × Bool :=
   | fd :: fr, ans :: ar =>
     let c := { c with env := { c.env with sockets := fr, connects := ar }, sys := c.sys ++ [.socket fd, .connect ans],
                       dev := { c.dev with fd := some fd } }
-    if ans == 0 then finishConnectOne c
+    if ans == 0 then
+      let (c, ok) := finishConnectOne c
+      if ok then (c, true) else ({ c with sys := c.sys ++ [.close fd], dev := { c.dev with fd := none } }, false)
     else if ans == 1 then (c, true)
-    else ({ c with sys := c.sys ++ [.close fd] }, false)          -- close(dev->fd); the number stays in dev->fd
+    else ({ c with sys := c.sys ++ [.close fd], dev := { c.dev with fd := none } }, false)   -- close(dev->fd); dev->fd = NO_FD
   | _, _ => ({ c with sys := c.sys ++ [.abort "no socket/connect answer"], aborted := true }, false)
 
 /-- `tcp_connect` -/
 def tcpConnect (c : CS) : CS × Bool :=
   if c.dev.conn != 0 then ({ c with sys := c.sys ++ [.abort "assert connect_state == NOT_CONNECTED"], aborted := true }, false) else
   if c.dev.fd.isSome then ({ c with sys := c.sys ++ [.abort "assert fd == NO_FD"], aborted := true }, false) else
-  let c := { c with dev := { c.dev with conn := 1 } }
+  let c := { c with dev := { c.dev with conn := 1, curAddr := true } }    -- tcp->cur = tcp->addrs
   let c := if c.dev.curAddr then
       let (c, ok) := connectOne c
       if ok then c else { c with dev := { c.dev with curAddr := false } }     -- cur = cur->ai_next (= NULL)
@@ -465,7 +463,7 @@ def reconnectDev (c : CS) (tmo : Option Time) : CS × Option Time :=
   | (false, some left) => (c, upd tmo left)
   | (false, none) => (c, tmo)
 
-/-- `_telnet_preprocess`: the whole pending buffer is filtered again after every read (F4) -/
+/-- `_telnet_preprocess`: only the bytes that arrived with this read go through the state machine -/
 def telnetStep (st : Nat) (cmd : UInt8) (b : UInt8) : Nat × UInt8 × List UInt8 × List UInt8 :=   -- state, cmd, kept, reply
   if st == 0 then (if b == 255 then (1, cmd, [], []) else (0, cmd, [b], []))
   else if st == 1 then
@@ -481,12 +479,12 @@ def telnetStep (st : Nat) (cmd : UInt8) (b : UInt8) : Nat × UInt8 × List UInt8
       else []
     (0, cmd, [], reply)
 
-def telnetFilter (d : Dev) : Dev :=
-  let (st, cmd, kept, reply) := d.fromBuf.foldl (fun (acc : Nat × UInt8 × List UInt8 × List UInt8) b =>
+def telnetFilter (d : Dev) (new : Bytes) : Dev :=
+  let (st, cmd, kept, reply) := new.foldl (fun (acc : Nat × UInt8 × List UInt8 × List UInt8) b =>
       let (st, cmd, kept, reply) := acc
       let (st', cmd', k, r) := telnetStep st cmd b
       (st', cmd', kept ++ k, reply ++ r)) (d.tstate, d.tcmd, [], [])
-  { d with tstate := st, tcmd := cmd, fromBuf := kept, toBuf := d.toBuf ++ reply }
+  { d with tstate := st, tcmd := cmd, fromBuf := d.fromBuf ++ kept, toBuf := d.toBuf ++ reply }
 
 /-- `_handle_ready_device`: returns ioerr -/
 def handleReady (c : CS) : CS × Bool :=
@@ -499,7 +497,10 @@ def handleReady (c : CS) : CS × Bool :=
     if f &&& 2 != 0 then
       if c.dev.conn == 1 then
         let (c, ok) := finishConnectOne c
-        let c := if ok then c else { c with dev := { c.dev with curAddr := false, conn := 0 } }   -- next address: none
+        let c := if ok then c else
+          match c.dev.fd with     -- close(dev->fd); dev->fd = NO_FD; next address: none
+          | some fd => { c with sys := c.sys ++ [.close fd], dev := { c.dev with fd := none, curAddr := false, conn := 0 } }
+          | none => { c with dev := { c.dev with curAddr := false, conn := 0 } }
         if c.dev.conn == 0 then (c, true, true)
         else if c.dev.conn == 2 then ({ c with dev := enqueueLogin c.dev }, false, true)
         else (c, false, true)
@@ -515,7 +516,7 @@ def handleReady (c : CS) : CS × Bool :=
     | some (some bs) =>
       if bs.isEmpty then ({ c with sys := c.sys ++ [.read 0] }, true)
       else ({ c with sys := c.sys ++ [.read bs.length],
-                     dev := (if c.dev.isPipe then id else telnetFilter) { c.dev with fromBuf := c.dev.fromBuf ++ bs } }, false)
+                     dev := if c.dev.isPipe then { c.dev with fromBuf := c.dev.fromBuf ++ bs } else telnetFilter c.dev bs }, false)
     | some none => ({ c with sys := c.sys ++ [.read (-1)] }, true)
     | none => ({ c with sys := c.sys ++ [.abort "no read answer"], aborted := true }, false)
   else (c, false)
